@@ -217,7 +217,7 @@ func mayCallStackOp(f *ssa.Function, on *types.Named, name string, memo map[*ssa
 			if sc == nil {
 				continue
 			}
-			if sc.Name() == name && sc.Signature.Recv() != nil && namedOf(sc.Signature.Recv().Type()) == on {
+			if core.FuncName(sc) == name && sc.Signature.Recv() != nil && namedOf(sc.Signature.Recv().Type()) == on {
 				memo[f] = 1
 				return true
 			}
@@ -276,7 +276,7 @@ func frameStale(p *core.Prog, r *core.Result, in map[string]bool) {
 						if sc == nil || core.FuncPkg(sc) != core.FuncPkg(f) {
 							continue
 						}
-						pushes := sc.Name() == "push" && sc.Signature.Recv() != nil && namedOf(sc.Signature.Recv().Type()) == stackT
+						pushes := core.FuncName(sc) == "push" && sc.Signature.Recv() != nil && namedOf(sc.Signature.Recv().Type()) == stackT
 						if !pushes && !mayCallStackOp(sc, stackT, "push", memos[stackT]) {
 							continue
 						}
@@ -376,10 +376,10 @@ func effectBeforeCollect(p *core.Prog, r *core.Result, in map[string]bool) {
 								cc := x.Common()
 								if cc.IsInvoke() && strings.HasPrefix(cc.Method.Name(), "On") {
 									what = "visitor event " + cc.Method.Name()
-								} else if sc := cc.StaticCallee(); sc != nil && sc.Signature.Recv() != nil && (sc.Name() == "push" || sc.Name() == "pop") && namedOf(sc.Signature.Recv().Type()) != nil && hasPushPop(namedOf(sc.Signature.Recv().Type())) {
-									what = namedOf(sc.Signature.Recv().Type()).Obj().Name() + "." + sc.Name()
-								} else if sc != nil && core.FuncPkg(sc) == fp && (strings.HasPrefix(sc.Name(), "pop") || strings.HasPrefix(sc.Name(), "push")) {
-									what = sc.Name()
+								} else if sc := cc.StaticCallee(); sc != nil && sc.Signature.Recv() != nil && (core.FuncName(sc) == "push" || core.FuncName(sc) == "pop") && namedOf(sc.Signature.Recv().Type()) != nil && hasPushPop(namedOf(sc.Signature.Recv().Type())) {
+									what = namedOf(sc.Signature.Recv().Type()).Obj().Name() + "." + core.FuncName(sc)
+								} else if sc != nil && core.FuncPkg(sc) == fp && (strings.HasPrefix(core.FuncName(sc), "pop") || strings.HasPrefix(core.FuncName(sc), "push")) {
+									what = core.FuncName(sc)
 								}
 							}
 							if what == "" || i2 == ssa.Instruction(call) {
@@ -817,7 +817,7 @@ func (k *pwClient) wholeOf(v ssa.Value) bool {
 			v = x.X
 		case *ssa.Call:
 			sc := x.Common().StaticCallee()
-			if sc != nil && (sc.Name() == "str2Bytes" || sc.Name() == "bytes2Str" || sc.Name() == "Str2Bytes" || sc.Name() == "Bytes2Str") && len(x.Common().Args) == 1 {
+			if sc != nil && (core.FuncName(sc) == "str2Bytes" || core.FuncName(sc) == "bytes2Str" || core.FuncName(sc) == "Str2Bytes" || core.FuncName(sc) == "Bytes2Str") && len(x.Common().Args) == 1 {
 				v = x.Common().Args[0]
 				continue
 			}
@@ -868,7 +868,7 @@ func (k *pwClient) Instr(s pwState, in ssa.Instruction) (pwState, bool, []pwStat
 		if !k.wholeOf(a) {
 			continue
 		}
-		if sc.Name() == "write" || sc.Name() == "Write" {
+		if core.FuncName(sc) == "write" || core.FuncName(sc) == "Write" {
 			s.done = true
 		} else if core.FuncPkg(sc) == core.FuncPkg(k.fn) && ai < len(sc.Params) && k.c.whole(sc, ai) {
 			s.done = true
@@ -1219,6 +1219,18 @@ func (k *itClient) Instr(s itState, in ssa.Instruction) (itState, bool, []itStat
 			if _, isC := pr[0].(*ssa.Const); isC {
 				continue
 			}
+			// the loop's own induction step (i = i + 1 feeding i's phi) is not a translation
+			if phi, ok := pr[0].(*ssa.Phi); ok {
+				induct := false
+				for _, e := range phi.Edges {
+					if e == ssa.Value(x) {
+						induct = true
+					}
+				}
+				if induct {
+					continue
+				}
+			}
 			refs := pr[0].Referrers()
 			if refs == nil {
 				continue
@@ -1315,7 +1327,7 @@ func refValueParity(p *core.Prog, r *core.Result, in map[string]bool) {
 						args = append(args, "_")
 					}
 				}
-				calls = append(calls, strings.TrimSuffix(sc.Name(), "Ref")+"("+strings.Join(args, ",")+")")
+				calls = append(calls, strings.TrimSuffix(core.FuncName(sc), "Ref")+"("+strings.Join(args, ",")+")")
 			}
 		}
 		sort.Strings(calls)
